@@ -402,9 +402,10 @@ def run_check(prop_id, tier, seed, n_override=None):
         for h in harness_errors[:3]:
             print(h)
         return 2
-    os.makedirs(os.path.join(ROOT, "evidence"), exist_ok=True)
-    with open(os.path.join(ROOT, "evidence", f"{prop_id}.json"), "w") as f:
-        json.dump(ev, f, indent=1, default=str)
+    if not os.environ.get("VERIF_NO_EVIDENCE"):
+        os.makedirs(os.path.join(ROOT, "evidence"), exist_ok=True)
+        with open(os.path.join(ROOT, "evidence", f"{prop_id}.json"), "w") as f:
+            json.dump(ev, f, indent=1, default=str)
     if violations:
         seen = set()
         for v in violations:
